@@ -388,6 +388,11 @@ impl DistinguishedName {
 				_ => return Err(Error::CouldNotParseCertificate),
 			};
 
+			if dn.get(&dn_type).is_some() {
+				// A name with a repeated attribute type cannot be represented: refuse it
+				// rather than silently dropping attributes from the issuer name
+				return Err(Error::CouldNotParseCertificate);
+			}
 			dn.push(dn_type, dn_value);
 		}
 		Ok(dn)
